@@ -113,6 +113,7 @@ class World:
         self.library_calls = 0
         self.events = 0
         self.asked = []  # (step index, step, operand Obj list, operand bits after the call, answer)
+        self.globals0 = faults.global_scalars()
 
     # ------------------------------------------------------------- helpers
     def _call(self, step, objs, idx, who):
@@ -243,6 +244,12 @@ class World:
             self._exec_nonmutating(step, idx)
         else:
             raise HarnessError(f"unknown step {op}")
+        now = faults.global_scalars()
+        if now != self.globals0:
+            diff = sorted(k for k in set(now) | set(self.globals0) if now.get(k) != self.globals0.get(k))
+            raise Violation("global-state-changed", "C10", idx,
+                            f"{op} left module-level configuration changed: " +
+                            ", ".join(f"{k}: {self.globals0.get(k)} -> {now.get(k)}" for k in diff[:4]))
         self.stats.inc("steps")
         self.stats.inc(f"step:{op}")
 
@@ -902,7 +909,7 @@ def _ansstr(ans):
 
 
 def _argstr(step):
-    keys = [k for k in step if k not in ("op", "a", "b", "dst", "t1", "t2", "repeat", "drop", "same_answer_as", "needs", "expect", "force_expect", "force_t2", "fault", "kkey", "kakey", "kbkey", "noisy_point", "stability", "dkw", "via", "aform")]
+    keys = [k for k in step if k not in ("op", "a", "b", "dst", "t1", "t2", "repeat", "drop", "same_answer_as", "needs", "expect", "force_expect", "force_t2", "fault", "kkey", "kakey", "kbkey", "noisy_point", "stability", "dkw", "via", "aform", "nnodes")]
     return "(" + ", ".join(f"{k}={_argval(step[k])}" for k in keys) + ")"
 
 
